@@ -44,6 +44,12 @@ def floor(tier):
     out = [{"grid": r, "flip": 0} for r in gg.floor_recipes()]
     # non-convex cells (oriented path only) and strongly graded 1-D grids
     out += [{"grid": r, "flip": 0} for r in gg.floor_extra()]
+    # micrometre-scale perturbed quadrilateral / hexahedral / triangle grids
+    for k, (kind, dim, n) in enumerate([("cart", 2, [6, 5]), ("tensor", 2, [4, 4]),
+                                        ("tri", 2, [3, 3]), ("cart", 3, [2, 2, 2]),
+                                        ("cart", 1, [5])]):
+        out.append({"grid": {"kind": kind, "dim": dim, "n": n, "phys": [1e-3] * dim,
+                             "tseed": 3 + k, "perturb": 0.15, "pseed": 20 + k}, "flip": 0})
     # orientation fallback: reversed node order on some faces of 2-D grids
     out += [{"grid": r, "flip": 3 + k} for k, r in enumerate(gg.floor_recipes(dims=(2,)))]
     return out
@@ -53,7 +59,7 @@ def generate(rng, tier, i):
     if rng.random() < 0.15:
         r = gg.random_recipe(rng, dims=(1, 2), kinds=("graded", "nonconvex"), rigid="embedded")
     else:
-        r = gg.random_recipe(rng, rigid="embedded")
+        r = gg.random_recipe(rng, rigid="embedded", scales=(1e-4, 1e-3, 1e3))
     flip = 0
     if r["dim"] == 2 and gg.convex(r) and rng.random() < 0.35:
         flip = int(rng.integers(1, 2**31))
@@ -89,6 +95,9 @@ def check(case, mon):
               + ("+affine" if r.get("affine") is not None else "")
               + ("+rigid" if r.get("rigid") else ""))
     mon.nontrivial(g.num_cells >= 2)
+    if max(r["phys"]) < 1e-2 or max(r["phys"]) > 1e2:
+        mon.klass("size-far-from-one")
+        mon.count("grids_with_size_far_from_one")
     nc = g.num_cells
     V = g.cell_volumes
     h = float(np.max(V)) ** (1.0 / dim)
